@@ -126,3 +126,23 @@ Proof. exact slice_step. Qed.
 
 Print Assumptions C14_slice_all_or_nothing.
 Print Assumptions C14_element_set_progress.
+
+(* ---- repair D15: a write through a STALE view of a union's former value is refused ----
+   When the union holds an option of another type than the one the view was obtained under (union_guard fails), writing
+   through the view changes the view's own cell only: the union, and every view above it, stay exactly as they were. *)
+Theorem C14_stale_union_write_refused : forall H src fuel s u c p pc b e,
+  nth_error s u = Some c -> chook c = HUnionValue p -> p <> u -> nth_error s p = Some pc ->
+  union_guard H src (cty pc) (cback pc) (cty c) = Err e ->
+  set_backing H src (S fuel) s u b = (Err e, upd_cell s u {| cty := cty c; cback := b; chook := chook c |}).
+Proof.
+  intros H src fuel s u c p pc b e Hc Hh Hne Hp Hg. cbn [set_backing]. rewrite Hc, Hh.
+  assert (u < length s)%nat as Hu by (apply nth_error_Some; congruence).
+  rewrite (upd_cell_other s u _ p Hne Hu), Hp, Hg. reflexivity.
+Qed.
+(* ... and while the hook is valid (the union still holds a value of the view's type) the guard passes *)
+Theorem C14_union_guard_passes : forall H src t pv pn e old, wf_ty t = true -> wf t pv = true -> Repr H t pv pn ->
+  uelem t pv = Some (e, old) -> union_guard H src t pn e = Ok tt.
+Proof. exact union_guard_ok. Qed.
+
+Print Assumptions C14_stale_union_write_refused.
+Print Assumptions C14_union_guard_passes.
